@@ -20,7 +20,9 @@
 //! frame given to a network (`send ...`) and every delivery to a tap (`dlv ...`), `return`; OUT: status, elapsed.
 //!
 //! impl line (input of the extracted validator):
-//!   RET <T|E|S<k>> <elapsed_ns> ; <ev>*      ev = a<i> r<i> q<i>:<st>@<t> s<i>:<st> w:<st>@<t> f<m>:<p> v<m> d<i>
+//!   RET <T|E|S<k>> <elapsed_ns> ; Z:<slack_ns> <ev>*   ev = a<i> r<i> q<i>:<st>@<t> s<i>:<st> w:<st>@<t> f<m>:<p> v<m> d<i>
+//!                                            Z = slack of the real-time deadline check: 0 when paused, else 250 ms + twice the
+//!                                            largest scheduling stall the child measured on itself
 //!                                            W:<st> = first status the subscriber logged (maybe after the return)
 //!   CRASH <file:line of the panic> | HANG
 use elvis::applications::{
@@ -70,13 +72,6 @@ struct MSpec {
 impl MSpec {
     fn has(&self, name: &str) -> bool {
         self.tokens.iter().any(|t| t.split(':').next() == Some(name))
-    }
-    fn arg(&self, name: &str, i: usize) -> i64 {
-        self.tokens
-            .iter()
-            .find(|t| t.split(':').next() == Some(name))
-            .and_then(|t| t.split(':').nth(i + 1).and_then(|x| x.parse().ok()))
-            .unwrap_or(0)
     }
 }
 
@@ -344,6 +339,8 @@ fn build_machine(c: &Case, mi: usize, net: &Arc<Network>) -> Arc<Machine> {
     m.arc()
 }
 
+static STALL_NS: std::sync::atomic::AtomicU64 = std::sync::atomic::AtomicU64::new(0);
+
 fn child(case: &str) -> ! {
     let c = parse_case(case).expect("case");
     // run_internet chains to the hook installed here before it exits the process: report where the panic was
@@ -363,6 +360,16 @@ fn child(case: &str) -> ! {
     Recorder::install(Box::new(|_i, _f| elvis_core::network::verif::FrameFate::Deliver), false);
     let flavor = if c.flavor == 0 { Flavor::CurrentPaused } else { Flavor::Multi(c.flavor) };
     let c_flavor = c.flavor;
+    if c_flavor != 0 {
+        // real-time runs on a shared host: measure how long this process was not scheduled (an OS thread that
+        // sleeps 2 ms at a time records its largest oversleep); the real-time deadline check allows for it
+        std::thread::spawn(|| loop {
+            let t = std::time::Instant::now();
+            std::thread::sleep(Duration::from_millis(2));
+            let over = t.elapsed().as_nanos().saturating_sub(2_000_000) as u64;
+            STALL_NS.fetch_max(over, std::sync::atomic::Ordering::Relaxed);
+        });
+    }
     let out: Vec<String> = block_on(flavor, async move {
         start_clock();
         let net = Network::basic();
@@ -379,7 +386,11 @@ fn child(case: &str) -> ! {
             // let the independent subscriber (another task, maybe on another thread) log what it received
             tokio::time::sleep(Duration::from_millis(4)).await;
         }
-        let out = vec![format!("status {}", status_tok(&status)), format!("elapsed {}", el)];
+        let out = vec![
+            format!("status {}", status_tok(&status)),
+            format!("elapsed {}", el),
+            format!("stall {}", STALL_NS.load(std::sync::atomic::Ordering::Relaxed)),
+        ];
         // finish INSIDE the runtime: dropping a multi-thread runtime while Machine::start tasks are still pending
         // lets one of them observe JoinError::Cancelled of a protocol task; its `.expect("start method should not
         // panic!")` (machine.rs:60) then panics into the hook run_internet left installed, which exits with code 1
@@ -395,9 +406,9 @@ const BUILTIN_UDP_APPS: [&str; 9] =
     ["SendMessage", "Capture", "Forward", "OnReceive", "BasicServer", "ThroughputTester", "DhcpServer", "PingPong", "DnsClient"];
 
 fn gen_shots(rng: &mut Rng, tmo: i64, paused: bool, common_when: i64) -> String {
-    let n = match rng.below(10) {
-        0..=3 => 0,
-        4..=8 => 1,
+    let n = match rng.below(12) {
+        0..=2 => 0,
+        3..=9 => 1,
         _ => 2,
     };
     if n == 0 {
@@ -450,11 +461,11 @@ fn gen_happ(rng: &mut Rng, k: usize, tmo: i64, paused: bool, common_when: i64, s
             *rng.pick(&[15i64, 25])
         }
     } else {
-        match rng.below(12) {
+        match rng.below(20) {
             0 => -1,
-            1..=5 => 0,
-            6 => 1,
-            7 | 8 => 5,
+            1..=9 => 0,
+            10 | 11 => 1,
+            12..=15 => 5,
             _ => {
                 if paused {
                     *rng.pick(&[20i64, 100, 2500])
@@ -477,20 +488,20 @@ fn gen_happ(rng: &mut Rng, k: usize, tmo: i64, paused: bool, common_when: i64, s
 }
 
 fn pick_flavor(rng: &mut Rng) -> usize {
-    match rng.below(10) {
-        0..=5 => 0,
-        6 => 2,
-        7 => 3,
-        8 => 8,
+    match rng.below(12) {
+        0..=7 => 0,
+        8 => 2,
+        9 => 3,
+        10 => 8,
         _ => 16,
     }
 }
 
 fn pick_tmo(rng: &mut Rng, paused: bool) -> i64 {
     if paused {
-        *rng.pick(&[0i64, 1, 10, 50, 100, 1000, 5000, 60000])
+        *rng.pick(&[0i64, 1, 10, 100, 1000, 1000, 5000, 5000, 60000])
     } else {
-        *rng.pick(&[0i64, 20, 40, 80])
+        *rng.pick(&[0i64, 15, 30, 60])
     }
 }
 
@@ -740,6 +751,12 @@ impl Family for C13 {
         // ---- digest the log
         let status = r.out.iter().find_map(|l| l.strip_prefix("status ")).unwrap_or("?").to_string();
         let elapsed: u128 = r.out.iter().find_map(|l| l.strip_prefix("elapsed ")).and_then(|x| x.parse().ok()).unwrap_or(0);
+        let stall: u128 = r.out.iter().find_map(|l| l.strip_prefix("stall ")).and_then(|x| x.parse().ok()).unwrap_or(0);
+        // slack of the real-time deadline check: 250 ms + twice the largest scheduling stall the child measured
+        let rt_slack: u128 = if paused { 0 } else { 250_000_000 + 2 * stall };
+        if stall > 100_000_000 {
+            stat("multi: host stalled the child for more than 100 ms");
+        }
         #[derive(Clone, Debug)]
         enum Ev {
             Arrive(usize),
@@ -779,7 +796,7 @@ impl Family for C13 {
             }
         }
         // ---- impl line (events after the last release are irrelevant to the barrier part: frames are dropped there)
-        let mut line = format!("RET {} {} ;", status, elapsed);
+        let mut line = format!("RET {} {} ; Z:{}", status, elapsed, rt_slack);
         {
             let mut arrived = 0usize;
             let mut released = 0usize;
@@ -881,7 +898,6 @@ impl Family for C13 {
             }
         }
         // ---- part 2: the status is that of the first request made before the timeout, else TimedOut; deadline
-        let mut known_lag: Option<String> = None;
         {
             let d_ns: Option<u128> = if c.tmo >= 0 { Some(c.tmo as u128 * 1_000_000) } else { None };
             // statuses that built-in applications of this case may request (they do not log)
@@ -926,7 +942,6 @@ impl Family for C13 {
                     _ => {}
                 }
             }
-            let lagged = |st: &str| -> bool { reqs.len() > 16 && reqs[reqs.len() - 16].0 == st };
             let unobserved_builtin = c.napps == 0 && builtin_sts.contains(&status);
             if unobserved_builtin {
                 // no harness application, hence no subscriber: a built-in application's request cannot be timed
@@ -936,18 +951,11 @@ impl Family for C13 {
                     (Some((s, t)), dd) if dd.map_or(true, |d| *t < d) => {
                         stat(if dd.is_some() { "status case: request strictly before the timeout" } else { "status case: request, no timeout" });
                         if &status != s {
-                            if lagged(&status) {
-                                stat("status: first request lost, more than 16 queued");
-                                known_lag = Some(format!(
-                                    "returned {} = request number {} of {} queued before the run task was polled; the first request was {}",
-                                    status,
-                                    reqs.len() - 15,
-                                    reqs.len(),
-                                    s
-                                ));
-                            } else {
-                                fails.push(format!("returned {} but the first request, at {} ns, was {}", status, t, s));
-                            }
+                            // since /repo 0cf74903 the first request is remembered: no excuse when > 16 are queued
+                            fails.push(format!("returned {} but the first request (of {} queued), at {} ns, was {}", status, reqs.len(), t, s));
+                        }
+                        if reqs.len() > 16 {
+                            stat("status: more than 16 requests queued before the run task was polled");
                         }
                         if elapsed != *t {
                             fails.push(format!("returned at {} ns, the first request was made at {} ns", elapsed, t));
@@ -955,7 +963,7 @@ impl Family for C13 {
                     }
                     (Some((s, t)), Some(d)) if *t == d => {
                         stat("status case: request at the very instant of the timeout");
-                        if &status != s && status != "T" && !lagged(&status) {
+                        if &status != s && status != "T" {
                             fails.push(format!("returned {} with a request {} exactly at the timeout", status, s));
                         }
                         if elapsed != d {
@@ -1009,18 +1017,16 @@ impl Family for C13 {
                         }
                     }
                 }
+                if reqs.len() > 16 {
+                    stat("status: more than 16 requests queued before the return (multi)");
+                }
                 if let Some(b) = bad {
-                    if reqs.len() > 16 && reqs.iter().any(|r| r.0 == status) {
-                        stat("status: first request lost, more than 16 queued");
-                        known_lag = Some(format!("{} ({} requests queued)", b, reqs.len()));
-                    } else {
-                        fails.push(b);
-                    }
+                    fails.push(b);
                 }
             }
             // the deadline of the property, whatever the machines do
             if let Some(d) = d_ns {
-                let slack = if paused { 0 } else { 250_000_000 };
+                let slack = rt_slack;
                 if elapsed > d + 1_000_000_000 + slack {
                     fails.push(format!("deadline: returned at {} ns > timeout {} ns + 1 s", elapsed, d));
                 }
@@ -1030,8 +1036,6 @@ impl Family for C13 {
             Oracle::Fail(fails.join(" || "))
         } else if let Some(k) = known {
             Oracle::Known("c13-forward-acts-before-barrier".into(), k)
-        } else if let Some(k) = known_lag {
-            Oracle::Known("c13-first-status-lost-over-16-requests".into(), k)
         } else {
             Oracle::Ok
         };
